@@ -55,20 +55,44 @@ def structural_obligations() -> core.Result:
             return tuple(self.kids)
 
     bad = []
+    # the callee contract of visit() says nothing about its result: whatever a visit_X returns (None, a truthy value, a falsy
+    # value), every child is still visited
+    for retval in (None, True, 0, "x", []):
+        for k in range(0, 4):
+            kids = [(f"c[{i}]", object()) for i in range(k)]
+            v = NV()
+            log = []
+            v.visit = lambda n, log=log, retval=retval: (log.append(n), retval)[1]
+            fn = FakeNode(kids)
+            try:
+                NV.__dict__["generic_visit"](v, fn)
+            except Exception as e:  # noqa
+                bad.append(f"k={k}: raised {e!r}")
+                continue
+            if log != [c for _, c in kids]:
+                bad.append(f"k={k}, visit() returning {retval!r}: visit called on {len(log)} objects, expected the {k} children in order")
+    # the same with a visitor that has been used before (whatever dispatch state visit() keeps is warm): an overridden / wrapped
+    # visit() must still be the one entry point for every child
     for k in range(0, 4):
-        kids = [(f"c[{i}]", object()) for i in range(k)]
+        kids = [(f"c[{i}]", c_ast.ID(f"k{i}")) for i in range(k)]
         v = NV()
+        try:
+            NV.__dict__["visit"](v, c_ast.ID("warm"))
+            NV.__dict__["visit"](v, c_ast.ExprList([c_ast.ID("warm2")]))
+        except Exception as e:  # noqa
+            bad.append(f"warm-up raised {e!r}")
+            continue
         log = []
         v.visit = lambda n, log=log: log.append(n)
-        fn = FakeNode(kids)
         try:
-            NV.__dict__["generic_visit"](v, fn)
+            NV.__dict__["generic_visit"](v, FakeNode(kids))
         except Exception as e:  # noqa
-            bad.append(f"k={k}: raised {e!r}")
+            bad.append(f"k={k} (used visitor): raised {e!r}")
             continue
         if log != [c for _, c in kids]:
-            bad.append(f"k={k}: visit called on {len(log)} objects, expected the {k} children in order")
-    rep = ("from pycparser import c_ast\nlog=[]\nclass V(c_ast.NodeVisitor):\n    def visit_ID(self, n): log.append(n.name)\n"
+            bad.append(f"k={k}, visitor used before: visit called on {len(log)} objects, expected the {k} children in order "
+                       "(children are dispatched without going through visit())")
+    rep = ("from pycparser import c_ast\nlog=[]\nclass V(c_ast.NodeVisitor):\n    def visit_ID(self, n):\n        log.append(n.name)\n        return True\n"
            "n = c_ast.ExprList([c_ast.ID('a'), c_ast.ID('b'), c_ast.ID('c')])\nV().visit(n)\nprint(log)\n"
            "print('REPRODUCED' if log != ['a','b','c'] else 'NOT-REPRODUCED')\n")
     res.obs.append(_ob("C14/gx/NodeVisitor.generic_visit/each-child-once-in-order", not bad,
@@ -115,7 +139,7 @@ def structural_obligations() -> core.Result:
             self.calls = []
 
         def show(self, buf, **kw):
-            self.calls.append(kw)
+            self.calls.append(dict(kw, _buf=buf))
             buf.write("K\n")
 
     class Buf:
@@ -125,13 +149,22 @@ def structural_obligations() -> core.Result:
         def write(self, s):
             self.parts.append(s)
 
+    class FalsyBuf(Buf):
+        # the contract of `buf` is `write(str)` and nothing else: a sink whose truth value is False (an empty list-like
+        # collector) is as good as any other
+        def __bool__(self):
+            return False
+
+        def __len__(self):
+            return 0
+
     bad = []
     runs = 0
     for cls in classes:
         fields = cfg[cls]
         for flags in itertools.product((False, True), repeat=4):
             attrnames, showempty, nodenames, showcoord = flags
-            for nkids in (0, 1, 3):
+            for nkids in (0, 1, 3, -3):
                 kw = {}
                 kids = []
                 for f, kind in fields:
@@ -142,12 +175,12 @@ def structural_obligations() -> core.Result:
                         kids.append(k)
                         kw[f] = k
                     else:
-                        ks = [Kid() for _ in range(nkids)]
+                        ks = [Kid() for _ in range(abs(nkids))]
                         kids += ks
                         kw[f] = ks
                 node = getattr(c_ast, cls)(**kw)
                 expected = [c for _, c in node.children()]
-                buf = Buf()
+                buf = FalsyBuf() if nkids < 0 else Buf()
                 runs += 1
                 try:
                     c_ast.Node.__dict__["show"](node, buf, offset=4, attrnames=attrnames, showemptyattrs=showempty,
@@ -164,6 +197,8 @@ def structural_obligations() -> core.Result:
                 for k in expected:
                     if len(k.calls) != 1:
                         bad.append(f"{cls}{flags}: child.show called {len(k.calls)} times")
+                    elif k.calls[0].get("_buf") is not buf:
+                        bad.append(f"{cls}{flags}: the child is not shown into the buffer that was given")
                     elif not (k.calls[0].get("offset") == 6 and k.calls[0].get("attrnames") == attrnames
                               and k.calls[0].get("showemptyattrs") == showempty and k.calls[0].get("nodenames") == nodenames
                               and k.calls[0].get("showcoord") == showcoord):
